@@ -400,7 +400,7 @@ func perturb(r *gen.R, v ref.V) ref.V {
 func init() {
 	Register(&Property{
 		ID:            "C20",
-		Rule:          "a ~95-value pool (incl. pairs whose scaled coefficients collide modulo 2^64, 2^63 or 2^32) (incl. 19/20-digit integers around 2^63 and 2^64 and pairs differing by exactly 2^64) (nested containers, numerically equal numbers in different spellings inside containers, reordered members, near misses, 1 vs \"1\", true vs \"true\", 0 vs false, [] vs {} vs \"\" vs null): all ordered pairs through ==, !=, contains, filter equality and container wrappers via literals and via document fields, checked against deep type-strict model equality - with the numbers as json.Number and again as float64 / float32 / int64 / uint64 / decimal128 wherever the kind holds the value exactly, against literals and against each other - plus reflexivity/symmetry/negation; all triples (thorough; seeded sample in quick) for transitivity of the library's own ==; every value x value through !, &&, ||, filter predicates against the single false-like set with && / || returning an operand unchanged; seeded random nested values with one controlled perturbation (respelling/reordering keeps equality, one changed leaf breaks it); matrix stream: whole comparison matrices computed inside ONE evaluation (operands rebound per element through let / current node, so every comparison node is evaluated many times with different operand values and types), compared with the model; non-trivial = each judged pair/value/document; number-vs-string stream: 41 number spellings (in range, edge of the decimal range, beyond it, malformed json.Number texts) against the strings that spell them through ==, !=, contains, containers, filters and lets, answers are constants; deep-shared stream (as in C01); shared-backing stream: Go documents whose arrays are views over one backing array (prefix snapshots, windows) and whose objects are one map reached twice, 20 comparisons each against a deep copy; many-comparisons stream: 70000 / 250000 comparisons (thorough 300000 / 1200000) that fail through another key set, another value, another size, another type, a difference two levels down or a mixture, then 7 questions with constant answers in the same evaluation",
+		Rule:          "a ~95-value pool (incl. pairs whose scaled coefficients collide modulo 2^64, 2^63 or 2^32) (incl. 19/20-digit integers around 2^63 and 2^64 and pairs differing by exactly 2^64) (nested containers, numerically equal numbers in different spellings inside containers, reordered members, near misses, 1 vs \"1\", true vs \"true\", 0 vs false, [] vs {} vs \"\" vs null): all ordered pairs through ==, !=, contains, filter equality and container wrappers via literals and via document fields, checked against deep type-strict model equality - with the numbers as json.Number and again as float64 / float32 / int64 / uint64 / decimal128 wherever the kind holds the value exactly, against literals and against each other - plus reflexivity/symmetry/negation; all triples (thorough; seeded sample in quick) for transitivity of the library's own ==; every value x value through !, &&, ||, filter predicates against the single false-like set with && / || returning an operand unchanged; seeded random nested values with one controlled perturbation (respelling/reordering keeps equality, one changed leaf breaks it); matrix stream: whole comparison matrices computed inside ONE evaluation (operands rebound per element through let / current node, so every comparison node is evaluated many times with different operand values and types), compared with the model; non-trivial = each judged pair/value/document; number-vs-string stream: 41 number spellings (in range, edge of the decimal range, beyond it, malformed json.Number texts) against the strings that spell them through ==, !=, contains, containers, filters and lets, answers are constants; deep-shared stream (as in C01); shared-backing stream: Go documents whose arrays are views over one backing array (prefix snapshots, windows) and whose objects are one map reached twice, 20 comparisons each against a deep copy; many-comparisons stream: 70000 / 250000 comparisons (thorough 300000 / 1200000) that fail through another key set, another value, another size, another type, a difference two levels down or a mixture, then 7 questions with constant answers in the same evaluation; deep-shared runs to 70000 levels (built directly in Go beyond 5000) and includes twins that differ by a renamed null member, a missing member, and their containers",
 		MinNontrivial: 3000,
 		Streams: []Stream{
 			{Name: "pairs", Setup: c20Setup, N: func(c *Ctx) int { c20Setup(c); return len(c20Pool) * len(c20Pool) }, Run: c20Pairs, Exhaustive: true},
